@@ -2,7 +2,7 @@
 states, with HashMap as an association list (mapmodels) and tokio channels as recorded events."""
 import re
 import z3
-from . import run as R, models as M, mapmodels as MM, prov as P, seqmodels as SQ
+from . import run as R, models as M, mapmodels as MM, prov as P, seqmodels as SQ, listmodels as LM
 from .sym import Ctx, Executor, Node, Ptr, Opaque, OBJ, to_term, Unsupported
 
 MGR = r"^fn manager::<impl at core/src/client/async_client/manager\.rs:[\d: ]+>::"
@@ -72,7 +72,44 @@ def m_to_string_ok(ex, st, callee, args, dty, site):
     return r
 
 
+def m_response_new(ex, st, callee, args, dty, site):
+    """jsonrpsee_types::Response::new(payload, id) -> Response { jsonrpc: Some(2.0), payload, id, extensions }"""
+    r = Node(ex.ctx.fresh_name("response"), "Response")
+    for f, v in ((R.field_index("Response", "payload"), args[0]), (R.field_index("Response", "id"), args[1])):
+        k = Node(f"{r.name}.{f}", None)
+        ex.write(k, v)
+        r.kids[f] = k
+    return r
+
+
+def m_into_rawresponse(ex, st, callee, args, dty, site):
+    r = Node(ex.ctx.fresh_name("rawresponse"), "RawResponse")
+    k = Node(r.name + ".0", None)
+    ex.write(k, args[0])
+    r.kids[0] = k
+    return r
+
+
+def m_try_parse_number(ex, st, callee, args, dty, site):
+    """Id::try_parse_inner_as_number: Number(n) -> Ok(n); Null -> Err; Str -> solver-chosen"""
+    idn = MM.value_of(ex, args[0])
+    if not isinstance(idn, Node) or "discr" not in idn.kids:
+        return NotImplemented
+    dv = z3.simplify(ex.read_node(idn.kids["discr"]))
+    if not z3.is_bv_value(dv):
+        return NotImplemented
+    which = R.source_tables()["enums"]["Id"][dv.as_long()]
+    if which == "Number":
+        return ex.mk_variant("Result", 0, "Ok", ex.read_node(idn.kids[("Number", 0)]))
+    if which == "Null":
+        return ex.mk_variant("Result", 1, "Err", Opaque(z3.Const("InvalidRequestId::Invalid", OBJ)))
+    return NotImplemented
+
+
 CLIENT_MODELS = [
+    (r"^jsonrpsee_types::Response::<.*>::new$", m_response_new),
+    (r"^<jsonrpsee_types::Response<.*> as Into<RawResponse<'_>>>::into$", m_into_rawresponse),
+    (r"^jsonrpsee_types::Id::<'_>::try_parse_inner_as_number$", m_try_parse_number),
     (r"^to_writer::<&mut Vec<u8>, .*>$", m_to_writer_infallible),
     (r"^serde_json::to_string::<jsonrpsee_types::Request<'_>>$", m_to_string_ok),
     (r"^tokio::sync::oneshot::Sender::<.*>::send$", m_oneshot_send),
@@ -87,6 +124,7 @@ CLIENT_DOC = [
     "SubscriptionSender::send: outcome (delivered | Closed | TooSlow) chosen by the solver; recorded",
     "subscription_channel(cap): a fresh (sender, receiver) pair",
     "Id/SubscriptionId/Cow::into_owned are identities; Id == Id is structural equality",
+    "Response::new(payload, id) builds the response with that id; Response -> RawResponse wraps it; Id::try_parse_inner_as_number: Number(n) -> Ok(n), Null -> Err",
     "serialising a SubscriptionId (ArrayParams::insert) or a jsonrpsee Request (serde_json::to_string) cannot fail",
 ]
 
@@ -95,7 +133,7 @@ def make_ctx(core, **kw):
     t = R.source_tables()
     kw.setdefault("max_paths", 4000)
     ctx = Ctx(core, consts=t["consts"], enums=t["enums"],
-              models=CLIENT_MODELS + MM.MAP_MODELS + list(M.TRACING_MODELS) + list(M.MEM_MODELS) + list(SQ.SEQ_MODELS) + list(M.STRING_MODELS) + list(M.INT_MODELS) + P.COMMON_MODELS,
+              models=CLIENT_MODELS + MM.MAP_MODELS + LM.LIST_MODELS + list(M.TRACING_MODELS) + list(M.MEM_MODELS) + list(SQ.SEQ_MODELS) + list(M.STRING_MODELS) + list(M.INT_MODELS) + P.COMMON_MODELS,
               inline=[M.crate_inliner(core)], **kw)
     ctx.on_havoc = SQ.on_havoc
     return ctx
@@ -114,6 +152,15 @@ def mk_enum(ex, enum, variant, fields=(), name=None):
         k = Node(f"{n.name}.{variant}:{i}", None)
         ex.write(k, f)
         n.kids[(variant, i)] = k
+    return n
+
+
+def range_u64(ex, start, end):
+    n = Node(ex.ctx.fresh_name("range"), "std::ops::Range<u64>")
+    for i, v in ((0, start), (1, end)):
+        k = Node(f"{n.name}.{i}", "u64")
+        k.val = v
+        n.kids[i] = k
     return n
 
 
